@@ -84,6 +84,7 @@ func init() {
 	register(&Spec{
 		ID: "C31", World: "OBJ",
 		New:        func() dsim.World { return &c31Switch{} },
+		Warm:       []func() dsim.World{func() dsim.World { return &c31World{} }, func() dsim.World { return &solicitWorld{prop: "C31"} }},
 		Cfg:        dsim.Config{MaxChaosSteps: 80, MaxStableSteps: 500, Horizon: time.Minute},
 		Real:       []string{"link/solicit.NewSolicitMountedStream value (AcceptMountedStream, Close, IsAccepted)", "part (b): link/solicit/controller.Controller.resolveMatch and the whole C30 stack"},
 		Stub:       []string{"part (a): mounted stream stub that counts Close calls, no link, no controller", "part (b): two full nodes over a simlink pair (the C30 world) with several local solicitations matching one incoming stream"},
